@@ -86,13 +86,18 @@ void harness(void)
   __CPROVER_assume(options.handle.exit != options.handle.in && options.handle.exit != options.handle.out &&
                    options.handle.exit != options.handle.err);
 #ifdef VERIF_EXCLUDE_D11
-  /* known finding D11: the parent's descriptors 0..2 are not all open (so that
-     pipes the library creates land on 0..2), or a child handle is numbered 0..2
-     other than "stream i on descriptor i" */
-  __CPROVER_assume((g.fds.open & 7u) == 7u);
-  __CPROVER_assume((options.handle.in > 2 || options.handle.in == 0) &&
-                   (options.handle.out > 2 || options.handle.out == 1) &&
-                   (options.handle.err > 2 || options.handle.err == 2) && options.handle.exit > 2);
+  /* Known finding D11, exactly: the three dup2 calls run in stream order without
+     saving their sources, so (a) a stream whose source handle has the number of
+     an EARLIER stream's target that was itself redirected reads the wrong
+     object, (b) the exit handle or process_start's own error pipe numbered 0..2
+     is overwritten. Everything else - in particular handles that already sit on
+     their own target (pipes that landed on 0..2) and a later stream sharing an
+     earlier, unredirected one (2>&1 onto the inherited stdout) - stays in. */
+  __CPROVER_assume(!((options.handle.out == 0 && options.handle.in != 0) ||
+                     (options.handle.err == 0 && options.handle.in != 0) ||
+                     (options.handle.err == 1 && options.handle.out != 1)));
+  __CPROVER_assume(options.handle.exit > 2);
+  gc.cfg_no_low_fresh = true; /* process_start's error pipe does not land on 0..2 */
 #endif
 
   /* the launch request, as the properties state it */
